@@ -323,6 +323,7 @@ func (x *opFunction) Parse(s *scanner, r rune) (nextR rune, err error) {
 
 	r = s.Scan()
 	x.userString += string(r)
+	r = s.Scan()
 
 	for {
 		if r == sc.EOF {
@@ -391,6 +392,9 @@ func (x *opFunction) Parse(s *scanner, r rune) (nextR rune, err error) {
 					return r, erInvalid(s)
 				}
 			}
+		default:
+			// tokens that mean nothing here are skipped, but they are part of what the user wrote
+			x.userString += s.TokenText()
 		}
 		r = s.Scan()
 	}
@@ -458,6 +462,8 @@ func dealWithNumbers(s *scanner, x *opFunction, r rune) (rune, error) {
 			s.Scan() // move to the next token, should be the remainder of the number
 			ttk := s.TokenText()
 			tt += "." + ttk
+		} else {
+			tt += "."
 		}
 	}
 
